@@ -4,7 +4,18 @@
 (* A behaviour is printed when every operation instance has returned.  The driver replays the    *)
 (* logged steps on the real block relay: it holds operations at the fakes' gates so that the     *)
 (* interleaving of critical sections follows the behaviour as closely as the code allows.        *)
+(* Family = "held" (with Resolution = "snapshot"): the directed overlap family.  Call 1 - a lookup or   *)
+(* an auction for validator v - is held while it works out v's settings (it has read the          *)
+(* configuration, the accounts' names are still to be answered), ACROSS a complete fetch (call 2,   *)
+(* any answer of the source); then it is let go, and after both have returned v is looked up      *)
+(* again (call 3) and auctioned for (call 4).  Everything else is fixed, so that TLC's exhaustive  *)
+(* enumeration yields one behaviour per choice of the initial configuration, kind of call 1, v and  *)
+(* the source's answer.  On a tree that works out the settings under the lock the fetch cannot      *)
+(* finish before call 1 is let go: the driver's bounded waits expire and the recorded trace is      *)
+(* another behaviour of the specification.                                                        *)
 EXTENDS BlockRelay, Json
+
+CONSTANT Family    \* "free" | "held" | "heldfetch" | "alt"
 
 VARIABLE hist
 svars == <<vars, hist>>
@@ -23,21 +34,55 @@ SInit ==
 H(e) == hist' = Append(hist, e)
 Step(o, name) == H([ev |-> "Step", op |-> o, name |-> name])
 
+Done(o) == pc[o] = "done"
+\* the scripts of the directed families
+\*   "held"       see above
+\*   "heldfetch"  the mirror image: the fetch (call 1) is held at the configuration source while a lookup or an
+\*                auction for v (call 2) runs to completion; then the source answers, the fetch completes, and v
+\*                is looked up again (call 3)
+\*   "alt"        sequential histories fetch ; lookup(v) ; fetch ; lookup(v) ; fetch ; auction(v) on one instance,
+\*                every sequence of answers of the source (a failing fetch followed by further fetches and calls)
+ScriptStart(o, k, a) ==
+    CASE Family = "held" ->
+            (CASE o = 1 -> k \in {"lookup", "auction"} /\ a \in Validators
+               [] o = 2 -> k = "fetch" /\ pc[1] \in {"l_res", "a_res"}
+               [] o = 3 -> k = "lookup" /\ a = arg[1] /\ Done(1) /\ Done(2)
+               [] o = 4 -> k = "auction" /\ a = arg[1] /\ Done(3)
+               [] OTHER -> FALSE)
+      [] Family = "heldfetch" ->
+            (CASE o = 1 -> k = "fetch"
+               [] o = 2 -> k \in {"lookup", "auction"} /\ a \in Validators /\ pc[1] = "f_src"
+               [] o = 3 -> k = "lookup" /\ a = arg[2] /\ Done(1)
+               [] OTHER -> FALSE)
+      [] Family = "alt" ->
+            (CASE o \in {1, 3, 5} -> k = "fetch"
+               [] o = 2 -> k = "lookup" /\ a \in Validators
+               [] o = 4 -> k = "lookup" /\ a = arg[2]
+               [] o = 6 -> k = "auction" /\ a = arg[2]
+               [] OTHER -> FALSE)
+      [] OTHER -> TRUE
+HeldStart(o, k, a) == ScriptStart(o, k, a)
+HeldResolve(o) == Family = "held" => (o = 1 => Done(2))
+HeldSource(o) == Family = "heldfetch" => (o = 1 => Done(2))
+HeldBid(b) == Family \in {"held", "heldfetch", "alt"} => b = "win"
+
 SNext ==
     \/ \E o \in Ops, k \in {"fetch", "lookup", "auction", "register"}, a \in {0} \cup AllV :
-          Start(o, k, a) /\ H([ev |-> "Start", op |-> o, kind |-> k, v |-> a])
+          HeldStart(o, k, a) /\ Start(o, k, a) /\ H([ev |-> "Start", op |-> o, kind |-> k, v |-> a])
     \/ \E o \in Ops :
           \/ FetchRLock(o) /\ Step(o, "FetchRLock")
           \/ FetchRUnlock(o) /\ Step(o, "FetchRUnlock")
-          \/ \E out \in Outcomes : FetchSource(o, out) /\ H([ev |-> "Source", op |-> o, out |-> out.t, doc |-> out.doc])
+          \/ \E out \in Outcomes : HeldSource(o) /\ FetchSource(o, out) /\ H([ev |-> "Source", op |-> o, out |-> out.t, doc |-> out.doc])
           \/ FetchLockReq(o) /\ Step(o, "FetchLockReq")
           \/ FetchLockAcq(o) /\ Step(o, "FetchLockAcq")
           \/ FetchWriteUnlock(o) /\ Step(o, "FetchWriteUnlock")
           \/ LookupRLock(o) /\ Step(o, "LookupRLock")
           \/ LookupRUnlock(o) /\ Step(o, "LookupRUnlock")
+          \/ HeldResolve(o) /\ LookupResolve(o) /\ Step(o, "LookupResolve")
           \/ AuctionRLock(o) /\ Step(o, "AuctionRLock")
           \/ AuctionRUnlock(o) /\ Step(o, "AuctionRUnlock")
-          \/ \E b \in Bids : AuctionBid(o, b) /\ H([ev |-> "Bid", op |-> o, out |-> b])
+          \/ HeldResolve(o) /\ AuctionResolve(o) /\ Step(o, "AuctionResolve")
+          \/ \E b \in Bids : HeldBid(b) /\ AuctionBid(o, b) /\ H([ev |-> "Bid", op |-> o, out |-> b])
           \/ RegisterRun(o) /\ Step(o, "RegisterRun")
           \/ Return(o) /\ H([ev |-> "Return", op |-> o])
 
